@@ -325,3 +325,23 @@ def replay(case) -> List[Violation]:
     else:
         o = _worker_procs([(0, case["config"], case["config"], [])])
     return [Violation(s, m, c) for s, m, c in o["viol"]]
+
+
+# ---------------------------------------------------------------------------------------------
+# environment grid (mc/envgrid.py): the property names processes, hash seeds, working directories and wall-clock time itself;
+# the grid adds time zones, locales, python -O, threads, forked children, host logging / warnings / gc settings and import order
+
+def env_cases(tier: str):
+    from mc import envgrid
+
+    cfgs = idconfigs.base_configs("quick")
+    return [{"config": c} for c in envgrid.pick(cfgs, 60 if tier == "quick" else len(cfgs))]
+
+
+def env_observe(case):
+    from mc import envgrid
+
+    envgrid.scratch()
+    import copy as _copy
+
+    return ids_inprocess(_copy.deepcopy(case["config"]))
